@@ -292,7 +292,15 @@ func propC07(c *Ctx) {
 	}
 	for rep := 0; rep < reps; rep++ {
 		for li := range langVals {
-			for _, n := range wordCounts {
+			// the order of the word counts is shuffled and one count is repeated a random number of times,
+			// so that the running total of bytes drawn has no period (a read-ahead pool whose size is a
+			// multiple of 16+20+24+28+32 would otherwise never be straddled by a request)
+			order := append([]int64{}, wordCounts...)
+			c.rng.Shuffle(len(order), func(i, j int) { order[i], order[j] = order[j], order[i] })
+			for k := c.rng.Intn(3); k > 0; k-- {
+				order = append(order, wordCounts[c.rng.Intn(len(wordCounts))])
+			}
+			for _, n := range order {
 				s, err := bip39.NewMnemonic(int(n), langVals[li])
 				r.count("default-call")
 				if err != nil {
@@ -324,17 +332,19 @@ func propC07(c *Ctx) {
 						}
 						windows[w] = fmt.Sprintf("#%d+%d", len(seen), off)
 					}
-					// tail of the entropy must not be constant zero (a buffer only partly filled from the source)
-					if len(e) >= 20 {
-						z := true
-						for _, b := range e[16:] {
-							if b != 0 {
-								z = false
-							}
+					// no stretch of 8 equal bytes (a buffer only partly filled from the source, or padded with a
+					// constant: for CSPRNG output the chance is below 2^-50 per mnemonic)
+					run := 1
+					for i := 1; i < len(e); i++ {
+						if e[i] == e[i-1] {
+							run++
+						} else {
+							run = 1
 						}
-						if z {
+						if run >= 8 {
 							r.violate(Violation{Kind: "property", Class: "default-call", Op: fmt.Sprintf("NewMnemonic(%d,%s)", n, langNames[li]), Impl: hx(e),
-								Detail: "entropy bytes beyond the 16th are all zero: not drawn from the source"})
+								Detail: fmt.Sprintf("entropy bytes %d..%d are all %#02x: not drawn from the source", i-7, i, e[i])})
+							break
 						}
 					}
 				} else {
